@@ -4,7 +4,7 @@
 From Coq Require Import ZArith List Lia Bool.
 From Coq Require Import ZifyBool.
 From RTP Require Import Base.Bits Base.Res Base.ListX Base.Bytes Base.Tactics Model.RtpPacket Spec.Rfc8285
-  Proofs.ExtLoop Proofs.C01_Roundtrip Proofs.C02_Safety.
+  Proofs.ExtLoop Proofs.ExtForm Proofs.C01_Roundtrip Proofs.C02_Safety.
 Import ListNotations.
 Open Scope Z_scope.
 
@@ -121,27 +121,28 @@ Proof.
     assert (Hprof : 0 <= be16 p0 p1 < 65536) by (rewrite be16_arith by assumption; unfold is_byte in *; lia).
     assert (Hwords : 0 <= be16 e0 e1 < 65536) by (rewrite be16_arith by assumption; unfold is_byte in *; lia).
     destruct (zlen le <? be16 e0 e1 * 4) eqn:Efit; [discriminate|].
-    destruct ((be16 p0 p1 =? profile_one_byte) || (be16 p0 p1 =? profile_two_byte)) eqn:E8285.
+    destruct ((be16 p0 p1 =? profile_one_byte) || (ext_form (be16 p0 p1) =? profile_two_byte)) eqn:E8285.
     + set (n4 := 12 + Z.land b0 15 * 4 + 4) in *.
-      destruct (parse_exts (S (length le)) (be16 p0 p1 =? profile_two_byte) le n4 (n4 + be16 e0 e1 * 4) [] [])
+      destruct (parse_exts (S (length le)) (ext_form (be16 p0 p1) =? profile_two_byte) le n4 (n4 + be16 e0 e1 * 4) [] [])
         as [[[[exts offs] nf] rest]| |] eqn:Ep; cbn [bind] in Hrun; try discriminate.
       injection Hrun as <-. cbn [hr_header hr_rest].
       assert (Hn4 : n4 <= n4 + be16 e0 e1 * 4) by lia.
-      assert (HB : esz (be16 p0 p1 =? profile_two_byte) (rev []) + (n4 + be16 e0 e1 * 4 - n4) <= be16 e0 e1 * 4)
+      assert (HB : esz (ext_form (be16 p0 p1) =? profile_two_byte) (rev []) + (n4 + be16 e0 e1 * 4 - n4) <= be16 e0 e1 * 4)
         by (cbn [rev]; unfold esz; cbn; lia).
       destruct (parse_exts_wf _ _ _ _ _ _ _ _ _ _ _ (be16 e0 e1 * 4) Hokle Hn4 Ep (Forall_nil _) HB) as [Hwf Hsz].
       destruct (Hfixed true (be16 p0 p1) exts) as (F1 & F2 & F3 & F4 & F5 & F6 & F7).
         unfold wf_header. cbn [version payload_type sequence_number timestamp ssrc csrc].
         repeat (split; [assumption|]). unfold wf_exts. cbn [extension extension_profile extensions].
         split.
-        -- destruct (be16 p0 p1 =? profile_two_byte) eqn:E2.
-           ++ right. left. split; [lia|exact Hwf].
+        -- destruct (ext_form (be16 p0 p1) =? profile_two_byte) eqn:E2.
+           ++ right. left. split; [exact Hprof|split; [lia|exact Hwf]].
            ++ left. split; [lia|exact Hwf].
         -- unfold ext_block_size. cbn [extension_profile extensions].
            destruct (be16 p0 p1 =? profile_one_byte) eqn:E1.
-           ++ replace (be16 p0 p1 =? profile_two_byte) with false in * by (unfold profile_one_byte, profile_two_byte in *; lia).
+           ++ replace (ext_form (be16 p0 p1) =? profile_two_byte) with false in *
+                by (rewrite (ext_form_is_two _ Hprof); unfold profile_one_byte in *; lia).
               rewrite fold_size_esz1. lia.
-           ++ replace (be16 p0 p1 =? profile_two_byte) with true in * by lia.
+           ++ replace (ext_form (be16 p0 p1) =? profile_two_byte) with true in * by lia.
               rewrite fold_size_esz2. lia.
     + injection Hrun as <-. cbn [hr_header hr_rest].
       destruct (Hfixed true (be16 p0 p1) [mkExt 0 (take (be16 e0 e1 * 4) le)]) as (F1 & F2 & F3 & F4 & F5 & F6 & F7).
@@ -152,7 +153,7 @@ Proof.
         eexists. split; [reflexivity|]. rewrite take_zlen by lia. lia.
       * unfold ext_block_size. cbn [extension_profile extensions epayload].
         replace (be16 p0 p1 =? profile_one_byte) with false by lia.
-        replace (be16 p0 p1 =? profile_two_byte) with false by lia.
+        replace (ext_form (be16 p0 p1) =? profile_two_byte) with false by lia.
         rewrite take_zlen by lia. lia.
   - injection Hrun as <-. cbn [hr_header hr_rest].
     destruct (Hfixed false 0 []) as (F1 & F2 & F3 & F4 & F5 & F6 & F7).
